@@ -197,7 +197,10 @@ def classify(prop, cases_file, model_file):
                 res["in_domain"] += 1
                 if oc == "ok":
                     res["nontrivial"] += 1
-            if cls == "" and has_m and has_s and model_p != spec_p:
+            # (SPEC hints are taken from the implementation's observation, so a MODEL/SPEC difference
+            #  in the theorem domain is a machinery fault only when IMPL agrees with the MODEL;
+            #  otherwise it is reported below as IMPL differing from MODEL)
+            if cls == "" and has_m and has_s and model_p != spec_p and impl == model:
                 raise SystemExit("BROKEN: MODEL and SPEC disagree inside the theorem domain on %r (model=%s spec=%s): the machinery is wrong" % (case, model, spec))
             if has_m and impl == model:
                 if has_s and spec_p != impl_p:
